@@ -6,10 +6,12 @@ import (
 	neturl "net/url"
 	"strconv"
 	"strings"
+	"sync"
 	"testing"
 	"time"
 
 	"github.com/Cloud-Foundations/keymaster/lib/webapi/v0/proto"
+	"github.com/pquerna/otp/totp"
 )
 
 func vfC16Fixture(t *testing.T, state *RuntimeState, fx string) {
@@ -116,6 +118,12 @@ func TestVerifC16(t *testing.T) {
 	vfHookDB(t, state)
 	for _, line := range vio.ops {
 		f := strings.Fields(line)
+		if len(f) == 2 && f[0] == "totp2" {
+			// totp2 <n>: the same valid one-time code submitted by n requests at the same moment
+			n, _ := strconv.Atoi(f[1])
+			vio.emit("%s", vfC16ConcurrentTOTP(t, state, n))
+			continue
+		}
 		if len(f) != 5 || f[0] != "pair" {
 			vio.emit("bad-op")
 			continue
@@ -205,4 +213,55 @@ func TestVerifC16Stress(t *testing.T) {
 		}
 		vio.emit("done")
 	}
+}
+
+// vfC16ConcurrentTOTP: fresh user with a real TOTP secret; n goroutines present the current code
+// through the real TOTPAuthHandler at once (storage scheduler off). `<accepted> <n>`.
+var vfC16TotpSeq int
+
+func vfC16ConcurrentTOTP(t *testing.T, state *RuntimeState, n int) string {
+	vfC16TotpSeq++
+	user := fmt.Sprintf("totpuser%d", vfC16TotpSeq)
+	key, err := totp.Generate(totp.GenerateOpts{Issuer: "vf", AccountName: user})
+	if err != nil {
+		t.Fatal(err)
+	}
+	enc, err := state.encryptWithPublicKeys([]byte(key.Secret()))
+	if err != nil {
+		t.Fatal(err)
+	}
+	p := &userProfile{U2fAuthData: map[int64]*u2fAuthData{}, WebauthnData: map[int64]*webauthAuthData{},
+		TOTPAuthData: map[int64]*totpAuthData{1: {Enabled: true, Name: "t", EncryptedSecret: enc}}}
+	if err := state.SaveUserProfile(user, p); err != nil {
+		t.Fatal(err)
+	}
+	code, err := totp.GenerateCode(key.Secret(), time.Now())
+	if err != nil {
+		t.Fatal(err)
+	}
+	var wg sync.WaitGroup
+	var mu sync.Mutex
+	accepted := 0
+	start := make(chan struct{})
+	for i := 0; i < n; i++ {
+		wg.Add(1)
+		form := neturl.Values{}
+		form.Set("OTP", code)
+		req := vfFormPost(totpAuthPath, form)
+		req.Header.Set("Accept", "application/json")
+		req.AddCookie(vfAuthCookie(t, state, user, AuthTypePassword))
+		go func() {
+			defer wg.Done()
+			<-start
+			rr, pn := vfServe(state.TOTPAuthHandler, req)
+			if pn == nil && rr.Code == 200 {
+				mu.Lock()
+				accepted++
+				mu.Unlock()
+			}
+		}()
+	}
+	close(start)
+	wg.Wait()
+	return fmt.Sprintf("%d %d", accepted, n)
 }
